@@ -758,7 +758,7 @@ class SymExec:
             item = op["item"]
             iargs = tuple(op.get("iargs") or ())
             if "promoted" in op:
-                return ("promoted", item, op["promoted"])
+                return self.promoted_value(item, op["promoted"])
             # generic associated const specialised through the type environment
             if iargs and iargs[0] in fr.tgen:
                 tail = item.rsplit("::", 1)
@@ -781,6 +781,33 @@ class SymExec:
         if "zst" in op:
             return ("zst", ty)
         return ("constopaque", ty)
+
+    def promoted_value(self, item, idx):
+        """value of a promoted constant too large to be decoded inline: run its (straight-line) body"""
+        key = "%s::promoted[%d]" % (item, idx)
+        cache = self.__dict__.setdefault("_promoted", {})
+        if key in cache:
+            return cache[key]
+        val = ("promoted", item, idx)
+        pb = self.facts.bodies.get(key)
+        if pb is not None and len(pb.blocks) <= 4 and not self.__dict__.get("_in_promoted"):
+            self._in_promoted = True
+            try:
+                ps = SymExec(self.facts, pb, max_paths=8).run()
+                if len(ps) == 1 and ps[0].end == "return" and ps[0].ret is not None:
+                    r = ps[0].ret
+                    if r[0] == "ptr" and r[1][0] == "L" and not r[2]:
+                        inner = ps[0].store.get(r[1])
+                        if inner is not None and not contains(inner, lambda x: x[0] in ("ptr", "undef")):
+                            val = ("ref", inner)
+                    elif not contains(r, lambda x: x[0] in ("ptr", "undef")):
+                        val = r
+            except Exception:
+                pass
+            finally:
+                self._in_promoted = False
+        cache[key] = val
+        return val
 
     def decode(self, d):
         if isinstance(d, int):
@@ -1606,6 +1633,12 @@ class SymExec:
                 a0 = self.deref(st, args[0]) if args[0][0] in ("ptr", "ref") else args[0]
                 a1 = self.deref(st, args[1]) if args[1][0] in ("ptr", "ref") else args[1]
                 return self.ops.bin(op, a0, a1)
+        if name in ("[T]::iter", "core::slice::<impl [T]>::iter") and len(args) == 1:
+            a = args[0]
+            v = self.deref(st, a) if a[0] in ("ptr", "ref") else a
+            if a[0] == "ptr" and a[1][0] == "L" and v[0] == "array" and len(v[1]) <= 8:
+                # a local array with known elements, iterated by reference
+                return ("iter", ("array", tuple(("ref", e) for e in v[1])))
         if name.endswith("IntoIterator>::into_iter") or name == "core::iter::traits::collect::IntoIterator::into_iter":
             a = args[0]
             if a[0] in ("iter", "iter*"):
